@@ -28,10 +28,10 @@ func variants(mode string) []struct {
 			RPB: sdk.NewCoins(mc.C("eth", 3)), Total: sdk.NewCoins(mc.C("eth", 10)), Creator: true, Mode: mode, InitialHeight: 252}, 5, 7},
 		// ten pools: "farm-10" has the id of the pool under test, "farm-1", as a proper prefix
 		{Variant{Name: "tenth-pool", Farmers: []string{"A", "B"}, StakeAmts: []int64{1, 2},
-			RPB: sdk.NewCoins(mc.C("eth", 2)), Total: sdk.NewCoins(mc.C("eth", 9)), Mode: mode, OtherPools: 9}, 5, 7},
+			RPB: sdk.NewCoins(mc.C("eth", 2)), Total: sdk.NewCoins(mc.C("eth", 9)), Mode: mode, OtherPools: 9, OddFee: true}, 5, 7},
 		{Variant{Name: "two-denoms-future-start", Farmers: []string{"A", "B"}, StakeAmts: []int64{2, 3},
 			RPB: sdk.NewCoins(mc.C("eth", 2), mc.C("btc", 3)), Total: sdk.NewCoins(mc.C("eth", 11), mc.C("btc", 10)),
-			StartDelta: 2, Creator: true, BigStake: true, Mode: mode}, 5, 7},
+			StartDelta: 2, Creator: true, BigStake: true, Mode: mode, OddFee: true}, 5, 7},
 	}
 }
 
